@@ -22,6 +22,7 @@ var c05Table = map[byte]refmodel.Behaviour{
 	'm': {refmodel.SAbortStMsg, refmodel.SProbe, refmodel.SNext},
 	'w': {refmodel.SWrite, refmodel.SNext, refmodel.SProbe},
 	'u': {refmodel.SStatus, refmodel.SNext},
+	'r': {refmodel.SRedispAbort, refmodel.SProbe, refmodel.SNext, refmodel.SProbe},
 }
 
 const c05Codes = "pnqabctsmwu"
@@ -159,6 +160,15 @@ func c05Gen(tier string, emit func(c05Case)) {
 			vectors(c05Codes, n, func(b string) { push(chainShape{N: n, Split: sp, Via: viaFor(sp), Beh: b}) })
 		}
 	}
+	// a handler that re-dispatches (HandleContext) to a route whose middleware aborts: route-level chains only
+	// (global middleware would run again inside the re-dispatch), exactly one such handler, at every position
+	for n := 2; n <= 5; n++ {
+		for pos := 0; pos < n; pos++ {
+			vectors("pnq", n-1, func(b string) {
+				push(chainShape{N: n, Split: [3]int{0, 0, n - 1}, Via: viaFor([3]int{0, pos, n}), Beh: b[:pos] + "r" + b[pos:]})
+			})
+		}
+	}
 	if tier == "quick" {
 		for _, def := range []byte{'n', 'p'} {
 			for _, sp := range splitsOf(4) {
@@ -191,7 +201,7 @@ func c05Gen(tier string, emit func(c05Case)) {
 func c05Run(c c05Case, st *fw.Stats) []fw.Viol {
 	var vs []fw.Viol
 	for _, sh := range c.Shapes {
-		if strings.ContainsAny(sh.Beh, "abctsm") {
+		if strings.ContainsAny(sh.Beh, "abctsmr") {
 			st.Nontrivial++
 		}
 		v := compareChain(sh, c05Table, st)
@@ -204,7 +214,7 @@ func c05Run(c c05Case, st *fw.Stats) []fw.Viol {
 		st.Max("max_chain", int64(sh.N))
 	}
 	if st.WantSample() {
-		st.Sample(map[string]any{"chain": c.Shapes[0], "codes": "p=plain n=Next q=Next,probe a=probe,Abort,probe b=Abort,probe,Next,probe c=Next,probe,Abort,probe t=AbortThen,probe s=AbortWithStatus,probe m=AbortWithStatus(msg),probe,Next w=write,Next,probe u=SetStatus(201),Next"})
+		st.Sample(map[string]any{"chain": c.Shapes[0], "codes": "p=plain n=Next q=Next,probe a=probe,Abort,probe b=Abort,probe,Next,probe c=Next,probe,Abort,probe t=AbortThen,probe s=AbortWithStatus,probe m=AbortWithStatus(msg),probe,Next w=write,Next,probe u=SetStatus(201),Next r=HandleContext to a route whose middleware aborts,probe,Next,probe"})
 	}
 	return vs
 }
@@ -212,7 +222,7 @@ func c05Run(c c05Case, st *fw.Stats) []fw.Viol {
 var c05Spec = fw.Spec[c05Case]{
 	ID:    "C05",
 	Level: "model_checking",
-	Rule: "complete product: all behaviour vectors over 11 handler behaviours (plain, Next, Next+probe, SetStatus(201)+Next, Abort before/after/without Next, AbortThen, AbortWithStatus with/without message, write-then-Next) for chains of n<=4 (thorough 5) handlers x every split of the middleware into global/group/route; n=5 and chains near the handler limit (33,34,61,62,63) by deviation bounding (uniform default behaviour, <=d deviating positions at every position); IsAborted() sampled at every entry and around every abort/Next; " +
+	Rule: "complete product: all behaviour vectors over 11 handler behaviours (+ one handler that re-dispatches with HandleContext to an aborting route, at every position of route-level chains n<=5) (plain, Next, Next+probe, SetStatus(201)+Next, Abort before/after/without Next, AbortThen, AbortWithStatus with/without message, write-then-Next) for chains of n<=4 (thorough 5) handlers x every split of the middleware into global/group/route; n=5 and chains near the handler limit (33,34,61,62,63) by deviation bounding (uniform default behaviour, <=d deviating positions at every position); IsAborted() sampled at every entry and around every abort/Next; " +
 		"each chain is run through ServeHTTP and compared event by event with a cursor-free chain interpreter; non-trivial = a chain containing an abort",
 	Assume: []string{"chains stay within the documented limit (62 middleware + main handler); global middleware is not counted by any registration check (noted in DESIGN, outside the property)"},
 	Bounds: func(tier string) map[string]any {
